@@ -1,7 +1,7 @@
 """Which jobs and extra checks decide which property (the sidecar's table of contents)."""
 import importlib
 
-JOB_MODULES = ["contracts.jobs_basic", "contracts.jobs_multi", "contracts.jobs_classes", "contracts.jobs_context"]
+JOB_MODULES = ["contracts.jobs_basic", "contracts.jobs_multi", "contracts.jobs_classes", "contracts.jobs_context", "contracts.jobs_asynctools"]
 CANARY = "contracts.jobs_canary"
 
 _cache = {}
@@ -60,6 +60,10 @@ PROPS = {
                 explanation="every history register* ; (leave|aclose|pop_all)* of the real ExitStack against the nested-with specification: same exits called with the same in-flight exception in the same order, same overall outcome, each exit exactly once"),
     "C16": dict(level="proof", canaries=[(CANARY, "canary:filter-yields-before-test")], trusted_base=TB_COMMON + ["reference class groupby/_grouper = transcription of CPython's groupbyobject/_grouperobject (validated differentially)", "one stale group handle represents all stale handles (their behaviour depends only on not being the current group)"],
                 explanation="data structure against abstract view: GroupBy/_Grouper operations vs the transcribed itertools.groupby under an arbitrary history of {advance groupby, advance current group, advance stale group}; the consumer loop is a cut point, so histories and inputs are unbounded"),
+    "C19": dict(level="proof", canaries=[(CANARY, "canary:filter-yields-before-test")],
+                trusted_base=TB_COMMON + ["specification contracts/refs/ref_asynctools.py (written from the property text: which values are awaited, in which order, when)",
+                                          "isinstance(x, Awaitable) / isinstance(x, AsyncIterable) decided per enumerated shape (A9)"],
+                explanation="relational proof of any_iter (all 12 shape combinations), await_each, apply (positional/keyword splits) and sync against the adapter specification: same pulls, same awaits in the same order, only when the consumer asks; same result"),
     "C18": dict(level="proof", canaries=[(CANARY, "canary:enumerate-leaks-source")], trusted_base=TB_COMMON,
                 explanation="cancellation (BaseException thrown in at every suspension point): same exception propagates, sources released"),
 }
